@@ -1368,7 +1368,6 @@ func (p *Program) guardEvalHooks(fn *ssa.Function, spec guardSpec, cell map[stri
 	return p.guardEval(fn, spec, cell)
 }
 
-
 // toChildrenTells: Kill / tell sites of g.Fn whose recipient derives from the child set.
 func toChildrenTells(p *Program, lc *lifecycle, g *IG, children *types.Var) map[int]bool {
 	out := map[int]bool{}
@@ -1500,7 +1499,6 @@ func c09IgnoredDirectives(p *Program, r *Report) {
 	}
 	r.Check(okC, "ignored Kill: a stopping actor forwards it to its children", lc.OnKill.Pos(), "on the CAS-lost edge of the kill handler (actor already stopping) every path forwards the kill to / resumes the children: an immediate Stop decided for a supervisor that is already stopping gracefully must still reach a child paused behind its poison kill")
 }
-
 
 // applyGraph: the apply-decision function with its single-call helpers inlined (a directive's body extracted into a method
 // stays part of the branch that calls it); role functions stay calls.
